@@ -55,7 +55,7 @@ def _trace_viol(res, stage, field):
         if d:
             v.append(dict(stage=stage, id=r["id"], iid=r["iid"], what=d[:6], kind=field,
                           partial=r.get("partial", False), cyclic=r["mon"].get("cyclic"),
-                          n=r["mon"].get("n")))
+                          n=r["mon"].get("n"), model=(r["mon"].get("opmodel") or {}).get("k")))
     return v
 
 
@@ -363,6 +363,12 @@ def known_match(prop, v, ctx):
         if sig.get("algo") == "glr" and not (v.get("stage") == "glr" or "algo=glr" in v.get("id", "")):
             continue
         if "cyclic" in sig and sig["cyclic"] != v.get("cyclic"):
+            continue
+        if "partial" in sig and sig["partial"] != v.get("partial"):
+            continue
+        if "what_exact" in sig and [list(w) for w in v.get("what", [])] != sig["what_exact"]:
+            continue
+        if "model" in sig and v.get("model") not in sig["model"]:
             continue
         if "min_solutions" in sig and not (v.get("n") or 0) >= sig["min_solutions"]:
             continue
